@@ -233,16 +233,23 @@ class RestrictFile(Harness):
     dataiter's part - that the list and the dtype map reach pyarrow and from_arrow for every order - over the contract
     model of pyarrow in vf/fsstub.py (requested columns, in the requested order); the real pyarrow is observed on witnesses"""
     prop = "C14"; opname = "file_restrict"
-    def __init__(self, fmt, maxn):
-        self.fmt = fmt; self.maxn = maxn
-        self.name = f"C14.restrict.DataFrame.read_{fmt}.n{maxn}"
+    def __init__(self, fmt, maxn, unit=False):
+        self.fmt = fmt; self.maxn = maxn; self.unit = unit
+        self.name = f"C14.restrict.DataFrame.read_{fmt}.n{maxn}" + (".unit" if unit else "")
         self.bounds = {"rows": f"1..{maxn}", "columns": "a (int64), f (float64 with NaN), s (string)", "restriction": "ordered non-empty subsets of a, f, s",
                        "dtype map": "none / float for a"}
+        if unit:
+            self.bounds.update({"columns": "a (int64), d (datetime64[D] with NaT)", "restriction": "ordered subsets containing d",
+                                "dtype map": "d: datetime64[us] (same kind as stored, another unit)"})
         self.symbolic = ["cell values"]; self.choice_dims = ["nrow", "requested columns and their order", "dtype map"]
         self.goals = [f"data_frame.py:DataFrame.read_{fmt}", "data_frame.py:DataFrame.from_arrow"]
     def build(self, ctx):
         from .common import mk_col
         n = choice("n", range(1, self.maxn + 1))
+        if self.unit:
+            cols = {"a": mk_col("i", n, "a"), "d": mk_col("D", n, "d")}
+            want = list(choice("cols", [("d",), ("a", "d"), ("d", "a")]))
+            return {"obj": Frame(cols), "fmt": self.fmt, "cols": want, "types": [["d", "datetime64[us]"]]}
         cols = {"a": mk_col("i", n, "a"), "f": mk_col("f", n, "f"), "s": mk_col("T", n, "s")}
         want = list(choice("cols", [("a",), ("s", "a"), ("f", "s", "a"), ("a", "f"), ("s",)]))
         types = [["a", "float"]] if "a" in want and choice("cast_a", [False, True]) else []
@@ -254,13 +261,24 @@ class RestrictFile(Harness):
         full, part = out["full"], out["part"]
         types = dict(tuple(t) for t in inp["types"])
         cl = [(f"restricted read has exactly the requested columns {sorted(inp['cols'])}", T(isinstance(part, Frame) and sorted(part.names) == sorted(inp["cols"]))),
-              ("full read has all columns", T(isinstance(full, Frame) and sorted(full.names) == ["a", "f", "s"]))]
+              ("full read has all columns", T(isinstance(full, Frame) and sorted(full.names) == sorted(inp["obj"].names)))]
         if not (isinstance(part, Frame) and isinstance(full, Frame)): return cl
         for nm in inp["cols"]:
             if nm not in part.cols or nm not in full.cols: continue
             a, b = part.cols[nm], full.cols[nm]
             cl.append((f"{nm}: same length", T(len(a) == len(b))))
             if len(a) != len(b): continue
+            if types.get(nm) == "datetime64[us]":
+                cl.append((f"{nm}: datetime64[us] as requested by dtypes", T(a.dtype == "datetime64[us]")))
+                from .common import INT64_MIN
+                if a.dtype == "datetime64[us]" and b.dtype == "datetime64[D]":
+                    for r in range(len(a)):
+                        cl.append((f"{nm}[{r}] equals the date read without restriction, cast to microseconds",
+                                   BV(a.cells[r]) == z3.If(BV(b.cells[r]) == INT64_MIN, INT64_MIN, BV(b.cells[r]) * BV(86400 * 10**6))))
+                elif a.dtype == "datetime64[us]" and b.dtype == "object":      # an entirely missing column has no type in the file
+                    for r in range(len(a)):
+                        cl.append((f"{nm}[{r}] missing as in the full read", z3.And(T(b.cells[r] is None), BV(a.cells[r]) == INT64_MIN)))
+                continue
             if nm in types:
                 cl.append((f"{nm}: float64 as requested by dtypes", T(a.dtype == "float64")))
                 if a.dtype == "float64":
@@ -281,6 +299,7 @@ def harnesses(tier):
     n = 2 if tier == "quick" else 3
     for f in ("csv", "parquet"):
         hs.append(RestrictFile(f, 1 if tier == "quick" else 2))
+        hs.append(RestrictFile(f, 1 if tier == "quick" else 2, unit=True))
     for r in ("DataFrame.from_json", "ListOfDicts.from_json", "ListOfDicts.read_csv"):
         hs.append(Restrict(r, n))
         hs.append(Restrict(r, n, typed=True))
